@@ -884,8 +884,9 @@ class MapType(_ParameterizedType):
             length = 2
         numelements = unpack(byts[:length])
         p = length
-        themap = util.OrderedMapSerializedKey(key_type, protocol_version)
         inner_proto = max(3, protocol_version)
+        # the index is filled with the key bytes as received, i.e. in the inner encoding
+        themap = util.OrderedMapSerializedKey(key_type, inner_proto)
         for _ in range(numelements):
             key_len = unpack(byts[p:p + length])
             p += length
